@@ -6006,3 +6006,69 @@ func checkExistenceTestStrict(p *Program, r *Report, rule string) {
 	}
 	r.Floor(rule, "comparisons with the leaf count in the reviewed existence test", total, 2)
 }
+
+// ---------------------------------------------------------------------------
+// R09k ROOTS-FLAGGED-BY-CONFIGURATION. The from-roots constructor stores the
+// bare roots it is given. Whether they are kept once they have been merged
+// away is the forest's configuration (full or not): the keep flag stored with
+// them is the constructor's `full` argument (or the field it was stored in),
+// not a constant - roots stored as "remembered" in a forest that is not full
+// stay stored, with their siblings, after additions have merged them.
+
+func checkRootsFlaggedByConfiguration(p *Program, r *Report, rule string, name string) {
+	fn := p.Func(name)
+	if fn == nil {
+		r.MissingAnchor(rule, name, "from-roots constructor not found")
+		return
+	}
+	var full ssa.Value
+	for _, par := range fn.Params {
+		if types.Identical(par.Type(), types.Typ[types.Bool]) {
+			full = par
+		}
+	}
+	n := 0
+	for _, b := range fn.Blocks {
+		for _, in := range b.Instrs {
+			k, m, cc := storeCall(p, in)
+			if k != "nodes" || m != "Put" || len(cc.Args) < 2 {
+				continue
+			}
+			n++
+			key := fmt.Sprintf("%s/nodes.Put#%d/flag", name, n)
+			bad := ""
+			origins := structFieldOrigins(cc.Args[1], "Remember")
+			if len(origins) == 0 {
+				bad = "nothing (the zero value)"
+			}
+			for _, o := range origins {
+				if o.whole {
+					bad = "a whole struct value"
+					continue
+				}
+				ok := dependsOn(o.val, func(v ssa.Value) bool {
+					if full != nil && v == full {
+						return true
+					}
+					if _, f, isField := fieldRead(v); isField && f == "Full" {
+						return true
+					}
+					return false
+				})
+				if !ok {
+					if c, isConst := o.val.(*ssa.Const); isConst && c.Value != nil {
+						bad = "the constant " + c.Value.String()
+					} else {
+						bad = "a value that does not depend on the configuration"
+					}
+				}
+			}
+			if bad == "" {
+				r.Discharge(rule, key, posOf(p, in), "the keep flag of the stored root is the forest's configuration", true)
+			} else {
+				r.Violate(rule, key, posOf(p, in), "the keep flag stored with a bare root comes from "+bad+", not from the forest's configuration: in a forest that is not full such a root, and its sibling, stay stored after additions have merged it away", "in "+name)
+			}
+		}
+	}
+	r.Floor(rule, "node stores of the from-roots constructor", n, 1)
+}
